@@ -71,7 +71,9 @@ fn main() {
                     refusal_bias: args.iter().any(|a| a == "--refusals"),
                     meta_heavy: args.iter().any(|a| a == "--meta-heavy"),
                 };
-                let o = if let Some(n) = arg(&args, "--perms") {
+                let o = if args.iter().any(|a| a == "--handles") {
+                    apigen::handle_campaign(arg_u64(&args, "--seed", 1), arg_u64(&args, "--count", 100), arg_u64(&args, "--max-ops", 60), ops, imp)
+                } else if let Some(n) = arg(&args, "--perms") {
                     apigen::perm_campaign(arg_u64(&args, "--seed", 1), n.parse().unwrap(), arg_u64(&args, "--sample", 0), ops, imp)
                 } else {
                     apigen::campaign(arg_u64(&args, "--seed", 1), arg_u64(&args, "--count", 100), arg_u64(&args, "--max-ops", 40), &cfg, ops, imp, arg(&args, "--snapdir"))
